@@ -22,6 +22,7 @@ class History:
                     self._undo_list.append(to_change(data))
                 for data in result[1]:
                     self._redo_list.append(to_change(data))
+                self._remove_extra_items()
 
     def do(self, changes, task_handle=taskhandle.DEFAULT_TASK_HANDLE):
         """Perform the change and add it to the `self.undo_list`
@@ -92,7 +93,9 @@ class History:
         dependencies = self._find_dependencies(self.redo_list, change)
         self._move_front(self.redo_list, dependencies)
         self._perform_redos(len(dependencies), task_handle)
-        return self.undo_list[-len(dependencies) :]
+        result = self.undo_list[-len(dependencies) :]
+        self._remove_extra_items()
+        return result
 
     def _move_front(self, change_list, changes):
         for change in changes:
